@@ -678,7 +678,7 @@ def run(ctx):
     # (spec/absorption/Growth_*.tla; deviations are GROWTH-FINDINGs, not violations of C20)
     mark('tlc_model_wait')
     from .. import lib_growth_absorption
-    lib_growth_absorption.run(ctx)
+    ctx.run_growth(lib_growth_absorption.run, 'lib_growth_absorption')
     mark('growth_module')
 
 
